@@ -21,8 +21,11 @@ META = {
                  "ModulusPack.read_file/get_modulus vs the statement's selection rule",
     "text": "All 64 subsets of bit sizes {1024,1536,2048,3072,4096,8192} as moduli files in 2 layouts (quick; 3 "
             "thorough: 1, 2 or 3 valid moduli per size, sizes declared exactly or understated by 1, generators "
-            "2/5/0), every file also carrying 13 kinds of lines that fail the type/tests/tries/bit-length "
-            "requirements at every size (before or after the valid lines) and malformed lines; all 8^3=512 "
+            "2/5/0), every file also carrying 14 kinds of lines that fail the type/tests/tries/bit-length "
+            "requirements (declared size overstated by 1 or 2, understated by 2, way off) at every size (before or "
+            "after the valid lines) and malformed lines; every file is loaded in 3 pack histories (fresh "
+            "ModulusPack; pack queried while still empty; pack that had the complementary-subset file loaded and "
+            "queried before this file was read into the same object); all 8^3=512 "
             "(quick) / 15^3=3375 (thorough) (min,prefer,max) requests incl. inverted and out-of-range ones; "
             "os.urandom pinned to 4 (quick) / 7 (thorough) first-byte patterns so _roll_random takes every "
             "value. Oracle: if an accepted size lies in [min,max] the offered modulus has the smallest in-range "
@@ -45,6 +48,7 @@ BAD_KINDS = [
     ("tests-0", 2, 0, 100, 0), ("tests-1", 2, 1, 100, 0), ("tests-2", 2, 2, 100, 0), ("tests-3", 2, 3, 100, 0),
     ("tests-4-tries-99", 2, 4, 99, 0), ("tests-5-tries-0", 2, 5, 0, 0), ("tests-6-tries-99", 2, 6, 99, 0),
     ("tests-7-tries-1", 2, 7, 1, 0),
+    ("size-overstated-by-1", 2, 6, 100, +1),
     ("size-overstated-by-2", 2, 6, 100, +2), ("size-understated-by-2", 2, 6, 100, -2),
     ("size-way-off", 2, 6, 100, None),
 ]
@@ -180,61 +184,104 @@ def judge(pack, valid, rejected, vsizes, req, first):
     return bl, None
 
 
-def load_pack(text, tmpdir, name):
+def load_pack(text, tmpdir, name, pack=None):
     path = os.path.join(tmpdir, name)
     with open(path, "w") as f:
         f.write(text)
-    pack = primes.ModulusPack()
+    if pack is None:
+        pack = primes.ModulusPack()
     pack.read_file(path)
     os.unlink(path)
     return pack
 
 
-def work(item, acc):
-    tier, vmask, variant = item
-    reqvals, pats = (Q_REQ, Q_PAT) if tier == "quick" else (T_REQ, T_PAT)
+HISTORIES = ["fresh", "queried-while-empty", "reloaded-after-other-file"]
+WARMUP_REQ = [(1024, 2048, 8192), (512, 512, 9000), (4096, 8192, 8192)]
+
+
+def make_pack(vmask, variant, history):
+    """The pack under test: `history` says what happened to the ModulusPack object before the file of this case
+    was read into it (read_file replaces the pack's content, so the earlier life must not matter)."""
     text, valid, rejected = build_pack(vmask, variant)
     tmpdir = tempfile.mkdtemp(prefix="c43-", dir="/dev/shm")
     try:
-        pack = load_pack(text, tmpdir, "moduli")
+        pack = None
+        if history != "fresh":
+            pack = primes.ModulusPack()
+            if history == "reloaded-after-other-file":
+                other, _, _ = build_pack(vmask ^ 0b111111, variant)
+                load_pack(other, tmpdir, "moduli-before", pack)
+            for req in WARMUP_REQ:
+                RND.arm(0x01)
+                try:
+                    pack.get_modulus(*req)
+                except Exception:
+                    pass                 # not judged here (empty pack: "no moduli available")
+        pack = load_pack(text, tmpdir, "moduli", pack)
     finally:
         shutil.rmtree(tmpdir, ignore_errors=True)
-    vsizes = sorted({b for b, _ in valid.values()})
-    acc.count("moduli_files")
-    acc.count("file_lines", text.count("\n"))
-    acc.count("rejectable_lines", len(rejected))
-    offered = set()
-    ri = 0
-    for req in itertools.product(reqvals, repeat=3):
-        ri += 1
-        want = expected_size(vsizes, *req)
-        if want is not None and len(vsizes) >= 2:
-            acc.nt((vmask * 3 + variant) * 4096 + ri)
-        if want is not None:
-            acc.count("requests_with_in_range_size")
-        for first in pats:
-            acc.ev()
-            res, bad = judge(pack, valid, rejected, vsizes, req, first)
-            if bad is not None:
-                key, detail = bad
-                acc.violation(key, {"file_sizes": vsizes, "variant": variant, "request(min,prefer,max)": list(req),
-                                    "urandom_first_byte": first, **detail},
-                              {"vmask": vmask, "variant": variant, "req": list(req), "first": first})
-            elif res != "SSHException":
-                offered.add((res, RND.calls))
-        if ri == 77 and vmask == 0b010101 and variant == 0:
-            acc.sample({"file_sizes": vsizes, "valid_moduli_per_size": 1, "rejectable_lines": len(rejected),
-                        "request(min,prefer,max)": list(req), "offered_bits": res, "expected_bits": want})
-    acc.cmax("max_urandom_calls_in_one_roll", max([c for _, c in offered] or [0]))
+    return text, valid, rejected, pack
+
+
+def work(item, acc):
+    tier, vmask, variant = item
+    reqvals, pats = (Q_REQ, Q_PAT) if tier == "quick" else (T_REQ, T_PAT)
+    failing_fresh = set()       # a case that already fails on a fresh pack is not reported again per history
+    for history in HISTORIES:
+        text, valid, rejected, pack = make_pack(vmask, variant, history)
+        vsizes = sorted({b for b, _ in valid.values()})
+        acc.count("moduli_files_loaded")
+        if history == "fresh":
+            acc.count("moduli_files")
+            acc.count("file_lines", text.count("\n"))
+            acc.count("rejectable_lines", len(rejected))
+        offered = set()
+        ri = 0
+        for req in itertools.product(reqvals, repeat=3):
+            ri += 1
+            want = expected_size(vsizes, *req)
+            if want is not None and len(vsizes) >= 2:
+                acc.nt(((vmask * 3 + variant) * 4096 + ri) * 4 + HISTORIES.index(history))
+            if want is not None:
+                acc.count("requests_with_in_range_size")
+            for first in pats:
+                acc.ev()
+                res, bad = judge(pack, valid, rejected, vsizes, req, first)
+                if bad is not None:
+                    key, detail = bad
+                    if history == "fresh":
+                        failing_fresh.add((req, first))
+                    elif (req, first) in failing_fresh:
+                        continue
+                    else:
+                        key += ":only-on-pack-" + history
+                    acc.violation(key, {"file_sizes": vsizes, "variant": variant, "pack_history": history,
+                                        "request(min,prefer,max)": list(req),
+                                        "urandom_first_byte": first, **detail},
+                                  {"vmask": vmask, "variant": variant, "req": list(req), "first": first,
+                                   "history": history})
+                elif res != "SSHException":
+                    offered.add((res, RND.calls))
+            if ri == 77 and vmask == 0b010101 and variant == 0 and history == "fresh":
+                acc.sample({"file_sizes": vsizes, "valid_moduli_per_size": 1, "rejectable_lines": len(rejected),
+                            "request(min,prefer,max)": list(req), "offered_bits": res, "expected_bits": want})
+            if ri == 77 and vmask == 0b010101 and variant == 1 and history == HISTORIES[2]:
+                acc.sample({"file_sizes": vsizes, "pack_history": "file with sizes %r loaded and queried, then this "
+                            "file read into the same ModulusPack" % [b for i, b in enumerate(SIZES)
+                                                                     if not (vmask >> i) & 1],
+                            "request(min,prefer,max)": list(req), "offered_bits": res, "expected_bits": want})
+        acc.cmax("max_urandom_calls_in_one_roll", max([c for _, c in offered] or [0]))
 
 
 def main(tier):
     ck = core.Check(
         PID, tier, "exploration",
-        "case = (moduli file, request (min,prefer,max), urandom first-byte pattern): files = all 64 subsets of 6 "
-        "bit sizes x layouts, each with 78 must-reject lines + 6 malformed lines; requests = full cube of the "
+        "case = (moduli file, pack history, request (min,prefer,max), urandom first-byte pattern): files = all 64 "
+        "subsets of 6 bit sizes x layouts, each with 84 must-reject lines + 6 malformed lines; pack history = what "
+        "happened to the ModulusPack object before read_file of this file (fresh object / queried while empty / "
+        "complementary-subset file loaded and queried); requests = full cube of the "
         "boundary grid; every case calls the real get_modulus on the pack parsed by the real read_file; "
-        "nontrivial = distinct (file, request) pairs in which the file has >=2 accepted sizes and at least one of "
+        "nontrivial = distinct (file, pack history, request) triples in which the file has >=2 accepted sizes and at least one of "
         "them lies in [min,max] (the selection rule has something to decide)",
         ["moduli are synthetic (bit length is all the parser looks at)",
          "group size = actual bit length; valid lines declare it exactly or understated by 1",
@@ -244,19 +291,16 @@ def main(tier):
     items = [(tier, vmask, v) for vmask in range(64) for v in range(nvar)]
     ck.merge(core.pmap(items, work))
     reqvals, pats = (Q_REQ, Q_PAT) if tier == "quick" else (T_REQ, T_PAT)
-    ck.extra["bound"] = {"sizes": SIZES, "layouts": nvar, "request_values": reqvals, "urandom_first_bytes": pats,
+    ck.extra["bound"] = {"sizes": SIZES, "layouts": nvar, "pack_histories": HISTORIES, "request_values": reqvals, "urandom_first_bytes": pats,
                          "reject_kinds": [k[0] for k in BAD_KINDS]}
     return ck.finish()
 
 
 def replay(rec):
     r = rec["replay"]
-    text, valid, rejected = build_pack(r["vmask"], r["variant"])
-    tmpdir = tempfile.mkdtemp(prefix="c43-", dir="/dev/shm")
-    try:
-        pack = load_pack(text, tmpdir, "moduli")
-    finally:
-        shutil.rmtree(tmpdir, ignore_errors=True)
+    history = r.get("history", "fresh")
+    text, valid, rejected, pack = make_pack(r["vmask"], r["variant"], history)
+    print("pack history:", history)
     vsizes = sorted({b for b, _ in valid.values()})
     print("accepted sizes in file:", vsizes, " sizes in parsed pack:", sorted(pack.pack))
     req = tuple(r["req"])
